@@ -552,6 +552,14 @@ func (c *c32) check(ctx context.Context, start *pgsim.DB, bc bulkCase, refFor fu
 				c.viol(bc, "element-blocked-by-transaction-left-open", "element %d (%s) waits for a lock held by a transaction that an earlier element of the same bulk left open after its deadlock retry (%d transaction(s) still open when the bulk returned): %s", i, bc.Elems[min(i, n-1)].Name, pg.OpenTransactions(), res.ErrorDescription)
 				return nil
 			}
+			if f == nil && strings.Contains(res.ErrorDescription, "would block") && strings.Contains(res.ErrorDescription, "self-deadlock") {
+				// no fault, one request on this database: the only possible holder of the lock
+				// element i waits for is the request itself (the open transaction of an atomic
+				// bulk, while the element runs on another session). On a server that wait never
+				// ends: the bulk returns no result at all
+				c.viol(bc, "bulk-blocks-itself", "element %d (%s) ran on another database session than the bulk's transaction and waits for a lock that transaction holds (%d transaction(s) open): on a server the request never returns: %s", i, bc.Elems[min(i, n-1)].Name, pg.OpenTransactions(), res.ErrorDescription)
+				return nil
+			}
 			c.r.EngineError(fmt.Sprintf("bulk %v %s: %s", bc.names(), bc.Opts, res.ErrorDescription))
 			return nil
 		}
